@@ -253,6 +253,25 @@ CLAIMED["C13"] = (
     "Lean 4 proof (fold invariant, pigeonhole name search) + add_slide correspondence + geometry/untouched-slide oracles",
     "DESIGN.md §5 C13",
 )
+CLAIMED["C03"] = (
+    "Kernel-checked closure theorems over a tree model of an XML part and ANY schema table (complex types as ordered slots "
+    "with occurrence bounds, attributes with simple types as unions of lexical atoms incl. a derivative-based pattern "
+    "matcher): a valid tree stays valid under every sequence, of any length and at any depths, of the edits xmlchemy "
+    "performs - insertion before the first successor present (adequate successor list, C10), removal, choice replacement, "
+    "attribute assignment (accepted values only; a rejected value is a no-op, proved), attribute removal, grafting of a "
+    "valid template instance - each meeting its local side condition.  Tied to the code twice: the schema tables are "
+    "regenerated from /repo/spec on every run and the Lean validator over them is compared with lxml XMLSchema on every XML "
+    "part of the corpus and on seeded mutations of them; and seeded histories of public-API operations (the operation "
+    "laboratory: ~110 read/write properties with in-domain / None / out-of-domain values, ~27 kinds of method calls) are "
+    "run on the real library from the default template and every corpus deck, every changed part validated by lxml after "
+    "EVERY call (rejected calls included) and by the Lean validator every few calls, at the end and after save + re-open.",
+    "Validity of the real output is judged by lxml (trusted); that each library call decomposes into edits meeting the side "
+    "conditions is observed per call, not proved (hand-written lxml manipulation and string templates are covered by the "
+    "histories only).  Wildcard strictness, text content and three xsd:double facets are not modelled.  Ten listed findings.",
+    "Lean 4 proof (edit-closure of validity by induction over histories and paths, on top of C10/C11) + schema-model/lxml "
+    "correspondence + validated API histories",
+    "DESIGN.md §5 C03",
+)
 
 NOT_YET = {}
 
